@@ -837,19 +837,23 @@ class DataSet:
                 self._freq_keep &= (self.spectral_windows[self.spw].channel_freqs <= end_freq)
             # Selections that affect corrprod axis
             elif k == 'corrprods':
-                if v == 'auto':
+                if isinstance(v, str) and v == 'auto':
                     self._corrprod_keep &= [(inpA[:-1] == inpB[:-1])
                                             for inpA, inpB in self.subarrays[self.subarray].corr_products]
-                elif v == 'cross':
+                elif isinstance(v, str) and v == 'cross':
                     self._corrprod_keep &= [(inpA[:-1] != inpB[:-1])
                                             for inpA, inpB in self.subarrays[self.subarray].corr_products]
                 else:
-                    v = np.asarray(v)
-                    if v.ndim == 2 and v.shape[1] == 2:
-                        all_corrprods = self.subarrays[self.subarray].corr_products
-                        v = v.tolist()
-                        v = np.array([list(cp) in v for cp in all_corrprods])
-                    if np.asarray(v).dtype == bool:
+                    if not isinstance(v, slice):
+                        v = np.asarray(v)
+                        if v.ndim == 2 and v.shape[1] == 2:
+                            all_corrprods = self.subarrays[self.subarray].corr_products
+                            v = v.tolist()
+                            v = np.array([list(cp) in v for cp in all_corrprods])
+                        elif not v.size and v.dtype != bool:
+                            # An empty sequence of indices gets a float dtype by default
+                            v = v.astype(int)
+                    if not isinstance(v, slice) and v.dtype == bool:
                         self._corrprod_keep &= v
                     else:
                         cp_keep = np.zeros(len(self._corrprod_keep), dtype=bool)
